@@ -532,8 +532,8 @@ prop("C11", ["l2"], "exploration",
 prop("C12", ["l2", "conc"], "exploration",
      CONC_RULE + "Under concurrency: once a matching group invalidation has returned, no call may be served an entry that certainly dates from before it (the key was seen by a listing probe that finished before the invalidation began and no execution for it was invoked later, or every execution had already returned). " + L2_RULE + "Focus: tag/event/dependency/name requests (including names nothing declares, names declared in another table, names of unused or metadata-less caches) in many short-lived processes, so that 'used at least once' varies; expected matches are computed from the generator's metadata table over the whole corpus. Non-trivial = a request; distinct = distinct (kind, name, set of matching used caches).",
      COMMON_ASSUME, ("C12", "group_invalidation_requests"))
-prop("C13", ["l2"], "exploration",
-     L2_RULE + "Focus: invalidate_with / invalidate_all_with with predicates = arbitrary subsets of the stored keys (per cache), followed by further history so that leftover bookkeeping shows as a wrong later eviction. Non-trivial = a conditional invalidation; distinct = distinct (function, entries before, subset).",
+prop("C13", ["l2", "conc"], "exploration",
+     CONC_RULE + "Under concurrency: on caches that cannot evict, an entry whose key no conditional invalidation of the scenario selects must stay cached once its storing call has returned (no later execution). " + L2_RULE + "Focus: invalidate_with / invalidate_all_with with predicates = arbitrary subsets of the stored keys (per cache), followed by further history so that leftover bookkeeping shows as a wrong later eviction. Non-trivial = a conditional invalidation; distinct = distinct (function, entries before, subset).",
      COMMON_ASSUME, ("C13", "conditional_invalidations"))
 prop("C14", ["l2", "conc"], "exploration",
      CONC_RULE + L2_RULE + "Focus: every function called from 2-4 worker threads in random serial orders; scope=thread functions have one model per thread, global/async ones a single shared model. Non-trivial = a call on a multi-thread history; distinct = distinct (function, tuple, calling thread, thread that stored it, cached?).",
